@@ -1137,6 +1137,24 @@ class TruthfulQueries:
         self.cfg = run.case["cfg"]
         self.seen_true = set()
         self.seen_false = set()
+        self.ci = 0
+        self.queued = []
+
+    def _queued_truth(self, p):
+        """Observations handed to the scheduler's allocation loop and not yet
+        dropped from the hot buffer by mark_observation_finished -- read off
+        the call log, not off the scheduler's own list."""
+        calls = p.calls
+        while self.ci < len(calls):
+            c = calls[self.ci]
+            self.ci += 1
+            if c["kind"] == "alloc_handed":
+                if c["obs"] not in self.queued:
+                    self.queued.append(c["obs"])
+            elif c["kind"] == "hot_remove" and c["ret"]:
+                if c["obs"] in self.queued:
+                    self.queued.remove(c["obs"])
+        return self.queued
 
     def _v(self, run, clause, cause, detail):
         if (clause, cause) not in self.flag:
@@ -1178,6 +1196,11 @@ class TruthfulQueries:
                          "cold": cold.current_capacity})
         if si and sim.scheduler.observation_queue:
             self._v(run, "C19.scheduler-idle", "idle-while-queued", {})
+        q = self._queued_truth(p)
+        if si and q:
+            self._v(run, "C19.scheduler-idle",
+                    "idle-while-observation-in-allocation-loop",
+                    {"handed-over-and-not-finished": list(q)})
         if ti:
             unfinished = [o.name for o in sim.instrument.observations
                           if o.status.value != "FINISHED"]
